@@ -325,6 +325,11 @@ func (am *AccountingManager) StopSession(sessionID string, terminateCause uint32
 			zap.String("session_id", sessionID),
 			zap.Error(err),
 		)
+		// The Stop now lives only in the in-memory retry queue: make it durable before the
+		// session's own file is removed below, or a crash would lose it
+		if perr := am.persistPendingRecords(); perr != nil {
+			am.logger.Warn("Failed to persist pending Accounting-Stop", zap.Error(perr))
+		}
 	}
 
 	// Remove from active sessions
